@@ -753,3 +753,6 @@ fn count_aggregates_in_expression(expression: &ParserExpressionTree) -> usize {
 
     num_aggregates
 }
+#[cfg(kani)]
+#[path = "/verif/kani/parser_tree_converter.rs"]
+mod verif_kani;
